@@ -50,12 +50,20 @@ RULE = ('random DAG workbook files (C01 generator: 2-14 cells on one or two shee
         'number, error value, blank, empty text, the formula text) x tolerance {None, 0, 1/1024, 1/2, 2} x outputs '
         '{all, one leaf, one root, random list, single address} x verify_tree on/off.  Deterministic core: three fixed '
         'workbooks x every formula cell x every perturbation kind x every tolerance x outputs {all, root} x tree.  '
+        'Oracle-only stream: 6 workbooks with precedents behind A:A / 1:1 / A:B references and 18-36 workbooks with a '
+        'broken-build formula (offending reference first / last / in the middle, directly checked or behind another '
+        'output), each formula cell behind them perturbed (number, text, error) or made unevaluable.  '
         'Non-trivial = a perturbed cell that is reachable from the outputs, or a file with a raising cell.')
 ASSUMPTIONS = [
     'non-iterative workbooks; the openpyxl wrapper (the only one shipped); raise_exceptions=False',
     'formula language of the correspondence: =ref, &, +, -, =, SUM, COUNT, INDEX over cells and ranges (workbooks of '
     'the shared C01 generator with any other formula kind are skipped by `supported`); integers, text, '
-    'logicals, blank inputs; no CSE arrays, no computed references (OFFSET/INDIRECT), no unbounded ranges (A:A)',
+    'logicals, blank inputs; no CSE arrays, no computed references (OFFSET/INDIRECT)',
+    'ORACLE-ONLY (not carried by the Lean model, decided by the implementation-only oracles: empty report, altered '
+    'cell named with (stored, recomputed), blame inside dep_graph descendants, unevaluable cells listed): workbooks '
+    'whose precedents are reached only through whole-column / whole-row references (SUM(A:A), INDEX(1:1,2), '
+    'SUM(A:B), other sheet), and formulas whose graph BUILD raises (missing sheet, range on a missing sheet, external '
+    'workbook) with formula precedents before / after / around the offending reference',
     'cells that raise are not members of a range node (the order in which _process_gen_graph evaluates several new '
     'ranges is not modelled; it is only observable when one of them raises)',
     'a stored text that spells an error code is not generated (pycel holds error values as strings)',
@@ -66,7 +74,7 @@ ASSUMPTIONS = [
 TRUSTED = ['modelled, not verified: openpyxl reading the file (data_only values), networkx, the formula evaluator of '
            'pycel on the generated language (compared through the recomputed values of the report)']
 REQUIRED_BUCKETS = ['consistent', 'consistent:raising', 'pert:far', 'pert:near', 'pert:text', 'pert:logical',
-                    'pert:lognum', 'pert:error', 'pert:blank', 'fixed']
+                    'pert:lognum', 'pert:error', 'pert:blank', 'fixed', 'oo:unbounded', 'oo:broken-build']
 EXHAUSTIVE = False
 EXPLANATION = ('theorems: generic model of validate_calcs over every workbook DAG / value type / formula semantics '
                'with exceptions; correspondence: real validate_calcs on .xlsx files vs compiled model, plus '
@@ -199,6 +207,8 @@ def _tol(case):
 
 
 def impl(case):
+    if case.get('oo'):
+        return oo_impl(case)
     from pycel import ExcelCompiler
     import contextlib
     import io
@@ -252,6 +262,8 @@ def impl(case):
 # model side
 
 def model_lines(case):
+    if case.get('oo'):
+        return ['ping']          # oracle-only stream: not carried by the Lean model, the driver just answers
     nodes = case['nodes']
     tol = 'z' if case['tol'] is None else 'n:' + case['tol']
     toks = ['c12', str(case['tree']), tol, str(len(nodes))]
@@ -302,6 +314,8 @@ def same(impl_out, model_out):
     """equal reports; numbers (recomputed by float arithmetic on one side, exactly on the other) up to 1e-12 relative"""
     if impl_out == model_out:
         return True
+    if impl_out is not None and impl_out.startswith('O|'):
+        return model_out == 'pong'
     if impl_out is None or model_out is None or impl_out.startswith('!') or model_out.startswith('!'):
         return False
     (ma, xa, na), (mb, xb, nb) = _items(impl_out), _items(model_out)
@@ -322,7 +336,7 @@ def governed(case):
     """the property fixes the report of a consistent file and of an alteration beyond the tolerance; what happens for
     an alteration within the tolerance or to "no stored result" is the code's choice (model follows the code)"""
     pert = case.get('pert')
-    return pert is None or pert[1] in FAR
+    return pert is None or pert[1] in FAR or bool(case.get('oo'))
 
 
 # ---------------------------------------------------------------------------------------------------------------
@@ -369,6 +383,9 @@ def reachable(case):
 def oracles(results):
     for r in results:
         case = r.case
+        if case.get('oo'):
+            yield from oo_oracles(r)
+            continue
         if r.impl.startswith('!'):
             yield case, f'validate_calcs raised / returned an unknown report: {r.impl}'
             continue
@@ -423,6 +440,8 @@ def _code_close(a, b, tol):
 
 
 def finding_key(case, impl_out, model_out):
+    if case.get('oo'):
+        return None
     pert = case.get('pert')
     if pert and impl_out and not impl_out.startswith('!'):
         if pert[0] in parse_report(impl_out)[0]:
@@ -445,6 +464,8 @@ def finding_key(case, impl_out, model_out):
 # coverage
 
 def nontrivial(case):
+    if case.get('oo'):
+        return bool(case.get('pert')) or bool(case.get('unev'))
     pert = case.get('pert')
     if pert:
         return pert[0] in reachable(case)
@@ -452,6 +473,8 @@ def nontrivial(case):
 
 
 def bucket(case):
+    if case.get('oo'):
+        return 'oo:' + case['oo']
     if case.get('fixed'):
         return 'fixed'
     pert = case.get('pert')
@@ -594,6 +617,7 @@ def fixed_cases(thorough):
 def cases(tier, rng):
     thorough = tier == 'thorough'
     yield from fixed_cases(thorough)
+    yield from oo_cases(thorough, rng)
     n_wb = 150 if thorough else 22
     for k in range(n_wb):
         nodes = W.gen_workbook(rng, free_ranges=False)
@@ -620,3 +644,183 @@ def cases(tier, rng):
                     outs = rng.choice(choices)
                     tree = 1 if rng.random() < 0.75 else 0
                     yield {'nodes': nodes, 'outs': outs, 'tree': tree, 'tol': tol, 'pert': [c, kind, v]}
+
+
+# ---------------------------------------------------------------------------------------------------------------
+# oracle-only stream (not carried by the Lean model; decided by the implementation-only oracles, like C05's CSE cases):
+#   'unbounded'    precedents reached ONLY through a whole-column / whole-row reference (SUM(A:A), INDEX(1:1,2)); the
+#                  reference is a synthetic alias cell (`_Cell` with an unbounded address) that validate_calcs does not
+#                  compare but must walk through
+#   'broken-build' a formula whose graph BUILD raises (sheet that is not in the file, external workbook) naming further
+#                  formula precedents before / after the offending reference
+# case: {'oo': kind, 'cells': {addr: value | '=formula'}, 'const': {addr: stored constant of a cell pycel cannot
+#        evaluate}, 'nostore': [addr], 'outs': [addr], 'tree': 1, 'tol': None|'p/q', 'pert': [addr, kind, valtok]|None,
+#        'unev': [addr that must be listed under exceptions / not-implemented]}
+
+_OO_STORED = {}
+
+
+def oo_stored(case):
+    """consistent stored results: fresh in-memory pycel evaluation, unevaluable cells replaced by their constant"""
+    k = json.dumps([case['cells'], case['const']], sort_keys=True)
+    if k not in _OO_STORED:
+        if len(_OO_STORED) > 2000:
+            _OO_STORED.clear()
+        variant = {a: (case['const'][a] if a in case['const'] else v) for a, v in case['cells'].items()
+                   if a not in case['nostore']}
+        comp = W.build_compiler(variant)
+        out = {}
+        for a, v in case['cells'].items():
+            if a in case['const']:
+                out[a] = case['const'][a]
+            elif a in case['nostore']:
+                continue
+            elif isinstance(v, str) and v.startswith('='):
+                r = comp.evaluate(a)
+                out[a] = r.item() if hasattr(r, 'item') else r
+        _OO_STORED[k] = out
+    return _OO_STORED[k]
+
+
+def oo_impl(case):
+    from pycel import ExcelCompiler
+    from pycel.excelutil import AddressRange
+    import contextlib
+    import io
+    import networkx as nx
+    cached = dict(oo_stored(case))
+    pert = case.get('pert')
+    if pert:
+        cached[pert[0]] = W._py(pert[2])
+    path = os.path.join(TMP, f'oo{os.getpid()}.xlsx')
+    xw.write_xlsx(path, case['cells'], cached)
+    comp = ExcelCompiler(filename=path, plugins=[PLUGIN])
+    with contextlib.redirect_stdout(io.StringIO()):
+        rep = comp.validate_calcs(output_addrs=list(case['outs']), verify_tree=bool(case['tree']),
+                                  tolerance=_tol(case))
+    side = {}
+    if pert:
+        cell = comp.cell_map.get(AddressRange(pert[0]).address)
+        side['desc'] = ({str(d.address) for d in nx.descendants(comp.dep_graph, cell)}
+                        if cell is not None and cell in comp.dep_graph else set())
+    _SIDE[json.dumps(case, sort_keys=True)] = side
+    ms = sorted(f'{a}={core.enc(m.original)}>{core.enc(m.calced)}' for a, m in rep.get('mismatch', {}).items())
+    xs = sorted(e[0] for lst in rep.get('exceptions', {}).values() for e in lst)
+    ns = sorted(e[0] for lst in rep.get('not-implemented', {}).values() for e in lst)
+    return 'O|' + ';'.join([' '.join(['M'] + ms), ' '.join(['X'] + xs), ' '.join(['N'] + ns)])
+
+
+def oo_oracles(r):
+    case = r.case
+    if not r.impl.startswith('O|'):
+        yield case, f'validate_calcs raised: {r.impl}'
+        return
+    m, x, n = r.impl[2:].split(';')
+    ms = {}
+    for item in m.split(' ')[1:]:
+        a, _, rest = item.partition('=')
+        o, _, c = rest.partition('>')
+        ms[a] = (o, c)
+    listed = set(x.split(' ')[1:]) | set(n.split(' ')[1:])
+    pert = case.get('pert')
+    if pert is None and ms:
+        yield case, f'consistent file, yet mismatch reported for {sorted(ms)}'
+    if pert is None and not case['unev'] and listed:
+        yield case, f'consistent file every cell of which evaluates, yet {sorted(listed)} listed under exceptions'
+    for a in case['unev']:
+        if a not in listed:
+            yield case, (f'{a} cannot be evaluated and is reachable from the outputs {case["outs"]} but is listed '
+                         f'neither under exceptions nor under not-implemented (silently skipped)')
+    import re
+    tainted = set(case['unev'])          # cells that read (transitively, by the formula text) a cell that cannot be evaluated
+    grew = True
+    while grew:
+        grew = False
+        for a, v in case['cells'].items():
+            if a not in tainted and isinstance(v, str) and v.startswith('=') and any(
+                    t.rpartition('!')[2] in re.findall(r'[A-Z]+[0-9]+', v) and
+                    ('!' not in v or t.rpartition('!')[0] in v or t.rpartition('!')[0] == a.rpartition('!')[0])
+                    for t in tainted):
+                tainted.add(a)
+                grew = True
+    for a in listed:
+        if a in case['cells'] and a not in tainted:
+            yield case, f'{a} listed under exceptions although it and everything it reads evaluates'
+    if pert:
+        c = pert[0]
+        want = core.enc(oo_stored(case)[c])
+        got = ms.get(c)
+        if got is None:
+            yield case, (f'stored result of {c} altered to {core.show(pert[2])} and {c} is a precedent of the checked '
+                         f'outputs {case["outs"]}, but it is not reported as a mismatch (report: {r.impl[2:]})')
+        elif got[0] != pert[2] or not (got[1] == want or _close_tok(got[1], want)):
+            yield case, f'{c} reported with {core.show(got[0])} -> {core.show(got[1])}, expected {core.show(pert[2])} -> {core.show(want)}'
+        desc = _SIDE.get(json.dumps(case, sort_keys=True), {}).get('desc')
+        if desc is not None:
+            for a in ms:
+                if a != c and a not in desc:
+                    yield case, f'{a} reported as a mismatch but is not a descendant of the altered cell {c} in dep_graph'
+
+
+def _oo_perts(case, targets, tols, kinds=('far', 'text', 'error')):
+    st = oo_stored(case)
+    for tol in tols:
+        base = dict(case, tol=tol)
+        yield dict(base, pert=None)
+        for c in targets:
+            old = st[c]
+            for kind in kinds:
+                if kind == 'far':
+                    v = core.enc(old + 1000 if isinstance(old, (int, float)) and not isinstance(old, bool) else 12345)
+                elif kind == 'text':
+                    v = core.enc_text('zz')
+                else:
+                    v = core.enc('#N/A')
+                yield dict(base, pert=[c, kind, v])
+
+
+def oo_cases(thorough, rng):
+    tols = TOLS if thorough else [None, '1/2']
+    # --- precedents only behind a whole-column / whole-row reference
+    unb = [
+        # (cells, outputs, perturbable formula cells reached only through the unbounded reference)
+        ({'Sheet1!A1': 1, 'Sheet1!A2': 2, 'Sheet1!A3': '=A1+A2', 'Sheet1!B1': 5, 'Sheet1!C1': '=SUM(A:A)+B1'},
+         ['Sheet1!C1'], ['Sheet1!A3']),
+        ({'Sheet1!A1': 1, 'Sheet1!A2': '=A1*3', 'Sheet1!A3': '=A2+A1', 'Sheet1!C5': '=INDEX(A:A,3)', 'Sheet1!D5': '=C5&"|"'},
+         ['Sheet1!D5'], ['Sheet1!A2', 'Sheet1!A3']),
+        ({'Sheet1!A1': 4, 'Sheet1!B1': '=A1+1', 'Sheet1!C1': '=B1*2', 'Sheet1!A3': 7, 'Sheet1!B3': '=SUM(1:1)+A3'},
+         ['Sheet1!B3'], ['Sheet1!B1', 'Sheet1!C1']),
+        ({'Sheet1!A1': 4, 'Sheet1!B1': '=A1+1', 'Sheet1!A3': '=INDEX(1:1,2)', 'Sheet1!A4': '=A3+A3'},
+         ['Sheet1!A4'], ['Sheet1!B1']),
+        ({'Sheet1!A1': 2, 'Sheet1!A2': '=A1+A1', 'Data!B2': '=SUM(Sheet1!A:A)', 'Data!C2': '=B2-1'},
+         ['Data!C2'], ['Sheet1!A2']),
+        ({'Sheet1!A1': 1, 'Sheet1!A2': '=A1+1', 'Sheet1!B2': '=A2+1', 'Sheet1!D4': '=SUM(A:B)', 'Sheet1!E4': '=D4=6'},
+         ['Sheet1!E4', 'Sheet1!D4'], ['Sheet1!A2', 'Sheet1!B2']),
+    ]
+    for cells, outs, targets in unb:
+        base = {'oo': 'unbounded', 'cells': cells, 'const': {}, 'nostore': [], 'outs': outs, 'tree': 1,
+                'unev': []}
+        yield from _oo_perts(base, targets, tols)
+    # --- a formula whose graph build raises, with formula precedents before / after the offending reference
+    bad_refs = ['Other!A1', 'SUM(Other!A1:A2)', '[1]Sheet1!A1'] if thorough else ['Other!A1', '[1]Sheet1!A1']
+    for bad in bad_refs:
+        for order in ('bad-first', 'bad-last', 'bad-middle'):
+            for c1 in ('=B1*2', '=B1+A1'):
+                e1 = {'bad-first': f'={bad}+C1', 'bad-last': f'=C1+{bad}', 'bad-middle': f'=D1+{bad}+C1'}[order]
+                cells = {'Sheet1!A1': 1, 'Sheet1!B1': 3, 'Sheet1!C1': c1, 'Sheet1!D1': '=A1+B1', 'Sheet1!E1': e1}
+                for via in (False, True):
+                    cs = dict(cells)
+                    outs = ['Sheet1!E1']
+                    if via:
+                        cs['Sheet1!F1'] = '=E1+1'
+                        outs = ['Sheet1!F1']
+                    targets = ['Sheet1!C1'] + (['Sheet1!D1'] if order == 'bad-middle' else [])
+                    base = {'oo': 'broken-build', 'cells': cs, 'const': {'Sheet1!E1': 7}, 'nostore': [],
+                            'outs': outs, 'tree': 1, 'unev': ['Sheet1!E1']}
+                    yield from _oo_perts(base, targets, tols if thorough else [None], kinds=('far', 'text'))
+                    # the precedent behind the broken reference cannot be evaluated either (no stored result)
+                    cs2 = dict(cs)
+                    cs2['Sheet1!C1'] = '=FOOBARX(B1)'
+                    yield {'oo': 'broken-build', 'cells': cs2, 'const': {'Sheet1!E1': 7}, 'nostore': ['Sheet1!C1'],
+                           'outs': outs, 'tree': 1, 'tol': None, 'pert': None,
+                           'unev': ['Sheet1!E1', 'Sheet1!C1']}
